@@ -20,6 +20,7 @@ type DTx struct {
 type DBlock struct {
 	Num, Hash, Time uint64
 	Txs             []DTx
+	Parent          uint64 // id of the parent hash (oracle only; not part of the Coq term)
 }
 
 func dumpLog(l *eth.Log) DLog {
@@ -53,7 +54,7 @@ func DumpBlock(b *eth.Block, lock bool) DBlock {
 
 // DumpBlockRaw keeps the transactions in the order the block stores them.
 func DumpBlockRaw(b *eth.Block) DBlock {
-	d := DBlock{Num: b.Num(), Hash: ID32(b.Header.Hash), Time: uint64(b.Header.Time)}
+	d := DBlock{Num: b.Num(), Hash: ID32(b.Header.Hash), Time: uint64(b.Header.Time), Parent: ID32(b.Header.Parent)}
 	for i := range b.Txs {
 		t := &b.Txs[i]
 		dt := DTx{Idx: uint64(t.Idx), Hash: ID32(t.PrecompHash), Status: uint64(t.Status)}
@@ -160,7 +161,7 @@ func ViewT(bs []DBlock, x string, traces bool, addrs []uint64) []DBlock {
 	}
 	res := make([]DBlock, len(bs))
 	for i, b := range bs {
-		v := DBlock{Num: b.Num, Hash: b.Hash, Time: b.Time}
+		v := DBlock{Num: b.Num, Hash: b.Hash, Time: b.Time, Parent: b.Parent}
 		for _, t := range b.Txs {
 			vt := DTx{Idx: t.Idx, Hash: t.Hash}
 			for _, l := range t.Logs {
@@ -192,7 +193,7 @@ func TruthT(c Chain, base string, x string, traces bool, addrs []uint64, start, 
 	for n := start; n < start+limit; n++ {
 		b := DBlock{Num: n}
 		if base != "" {
-			b.Hash, b.Time = c[n].Hash, c[n].Time
+			b.Hash, b.Time, b.Parent = c[n].Hash, c[n].Time, ID32(c.parent(n))
 		}
 		if base == "" && x != "" {
 			// the header hash is learnt from the logs / receipts of the block
